@@ -93,8 +93,9 @@ JMeshOpt(r) ==
                   /\ \A a \in 1..3 : AbsC(w.p0.p[a] - w.p1.p[a]) <= TP
                   /\ PointMoved(T, w.p0.p, w.p2.p, TP))
         /\ ClauseAll(i, "C03.meshopt.deviation_invariant", 1..n, LAMBDA j : LET w == o.rows[j] IN
-              Cardinality(ArgMinFaces(r.qs[j], vp, r.faces)) = 1 =>
-                  /\ ScalarSame(w.d0.pt, w.d2.pt, TS) /\ ScalarSame(w.d0.pl, w.d2.pl, TS)
+              \* (cases marked devall have a unique closest point for every query, also where two faces share it)
+              (Cardinality(ArgMinFaces(r.qs[j], vp, r.faces)) = 1 \/ ("devall" \in DOMAIN r /\ r.devall)) =>
+                  /\ ScalarSame(w.d0.pt, w.d2.pt, TS) /\ ("devall" \in DOMAIN r \/ ScalarSame(w.d0.pl, w.d2.pl, TS))
                   /\ PointMoved(T, w.d0.a, w.d2.a, TP) /\ PointMoved(T, w.d0.b, w.d2.b, TP))
 
 \* a counter-clockwise outline built from moved points is the moved outline; the generic point transform moves points
